@@ -277,3 +277,7 @@ mod tests {
         assert_eq!(builder.cur, 15000);
     }
 }
+
+#[cfg(kani)]
+#[path = "/verif/units/kani/bitbox_wal_write.rs"]
+mod verif_kani;
